@@ -191,8 +191,16 @@ EXTENSIONS = {
     "C19": "Redirect chains of 2-3 hops changing scheme and / or host (each hop routed by its own scheme and host), credentials longer than one base64 line; every task also with trace logging on.",
     "C20": "Histories also with one caller-owned header list / dict passed to every handshake; targets with explicit ports; a subset also with trace logging on.",
 }
+EXT_TEXT = {}
+
+
+def _ext(pid, extra):
+    CHECKS[pid]["text"] += " " + extra
+    EXT_TEXT[pid] = (EXT_TEXT.get(pid, "") + " " + extra).strip()
+
+
 for _pid, _extra in EXTENSIONS.items():
-    CHECKS[_pid]["text"] += " " + _extra
+    _ext(_pid, _extra)
 
 # environment-model extensions of wave f
 for _pid, _extra in {
@@ -207,7 +215,7 @@ for _pid, _extra in {
     "C19": "A resolver that fails 1 / 2 / 5 times with EAI_AGAIN / EAI_NONAME: every lookup and connection still follows the proxy rule.",
     "C20": "Cookies set by redirect responses (301-308), probed on the next hop and on a later connection.",
 }.items():
-    CHECKS[_pid]["text"] += " " + _extra
+    _ext(_pid, _extra)
 
 # entry-point axis (env.open_via): the same options through WebSocket.connect, create_connection and WebSocketApp.run_forever
 for _pid, _extra in {
@@ -216,4 +224,4 @@ for _pid, _extra in {
     "C18": "Address lists also through WebSocketApp.run_forever(sockopt=...) with the process-wide default timeout.",
     "C19": "Every connect case also through create_connection and WebSocketApp.run_forever(http_proxy_*=...).",
 }.items():
-    CHECKS[_pid]["text"] += " " + _extra
+    _ext(_pid, _extra)
